@@ -75,6 +75,15 @@ class RobotsTxtChecker(object):
 
             session = self._web_client.session(request)
             while not session.done():
+                if session.next_request().url_info.scheme not in (
+                        'http', 'https'):
+                    # Redirected to something that is not fetched over
+                    # HTTP (mailto:, javascript:, ...). There is no host
+                    # and port to connect to.
+                    self._accept_as_blank(url_info)
+
+                    return
+
                 wpull.util.truncate_file(file.name)
 
                 try:
